@@ -33,6 +33,7 @@ const (
 	runHardLimit  = 60 * time.Second
 	postCloseOps  = 4
 	maxCopiesARun = 2
+	backupMaxRun  = 2000 * time.Millisecond // a backup-mode run issues Close at the latest after this long
 )
 
 type child struct {
@@ -161,6 +162,7 @@ type runCtx struct {
 	maxFlight  atomic.Int32
 	copiesOK   atomic.Int32 // CopyTo calls that returned nil
 	syncRounds atomic.Int32 // rounds in which all copiers were released together
+	zapRemoved atomic.Int32 // segment files removed by the purger so far
 }
 
 func (rc *runCtx) do(g int, log *[]opRec, kind string, fn func() error) {
@@ -243,6 +245,9 @@ func (c *child) runStress() {
 				hit = seen == in.Occ
 			}
 			dmu.Unlock()
+			if name == "zap_remove" {
+				rc.zapRemoved.Add(1)
+			}
 			if name == "close_begin" {
 				beganOnce.Do(func() { close(closeBegun) })
 			}
@@ -322,15 +327,37 @@ func (c *child) runStress() {
 			}
 		}(g)
 	}
+	if in.Mode == "backup" {
+		// Close after CloseMS, but (on a slow or busy machine) not before the copiers have entered
+		// CopyTo together a few times and the purger has removed files; never later than backupMaxRun
+		go func() {
+			t0 := time.Now()
+			for {
+				el := time.Since(t0)
+				if el >= time.Duration(in.CloseMS)*time.Millisecond && rc.syncRounds.Load() >= 4 && rc.zapRemoved.Load() >= 2 {
+					break
+				}
+				if el >= backupMaxRun || rc.stop.Load() {
+					break
+				}
+				time.Sleep(10 * time.Millisecond)
+			}
+			closeOnce.Do(func() { close(closeNow) })
+		}()
+	}
 	// closers
 	var cg sync.WaitGroup
 	for k := 0; k < nClosers; k++ {
 		cg.Add(1)
 		go func(k int) {
 			defer cg.Done()
+			closeAfter := time.Duration(in.CloseMS) * time.Millisecond
+			if in.Mode == "backup" {
+				closeAfter = backupMaxRun // closeNow comes earlier, as soon as the run has seen enough
+			}
 			select {
 			case <-closeNow:
-			case <-time.After(time.Duration(in.CloseMS) * time.Millisecond):
+			case <-time.After(closeAfter):
 			}
 			rc.closeIssued.CompareAndSwap(0, 1)
 			rc.do(W+k, &logs[W+k], "close", func() error { return idx.Close() })
@@ -384,12 +411,8 @@ func (c *child) runStress() {
 				c.out.Persists++
 			}
 		}
-		for _, ev := range rec.Events() {
-			if ev.Kind == "point" && ev.Name == "zap_remove" {
-				c.out.ZapRemoved++
-			}
-		}
 	}
+	c.out.ZapRemoved = int(rc.zapRemoved.Load())
 	c.out.CopiesOK = int(rc.copiesOK.Load())
 	c.out.SyncRounds = int(rc.syncRounds.Load())
 	c.out.MaxFlight = int(rc.maxFlight.Load())
@@ -675,10 +698,11 @@ func (gt *gate) arrive() (full bool, last bool) {
 	return true, false
 }
 
-// backupWorker: goroutines 0..Copiers-1 call CopyTo in a tight loop (every other call is started
+// backupWorker: goroutines 0..Copiers-1 call CopyTo in a tight loop (two calls of three are started
 // together with the other copiers' through the gate), the next Writers goroutines produce small
-// segments (batches, single updates, deletions, forced merges) so that the merger and the purger
-// have work, the remaining ones read.  All go on for a few operations after Close has returned.
+// segments (batches, single updates, deletions), the remaining ones search, count and (ForceMerges)
+// force merges, so that the merger and the purger have work.  All go on for a few operations after Close has
+// returned.
 func (rc *runCtx) backupWorker(g int, log *[]opRec, r *vrand.R) {
 	idx := rc.idx
 	in := rc.c.in
@@ -700,7 +724,7 @@ func (rc *runCtx) backupWorker(g int, log *[]opRec, r *vrand.R) {
 		ver++
 		switch {
 		case g < in.Copiers:
-			if it%2 == 0 && !closed {
+			if it%3 != 2 && !closed {
 				if full, last := rc.gate.arrive(); full && last {
 					rc.syncRounds.Add(1)
 				}
@@ -723,7 +747,7 @@ func (rc *runCtx) backupWorker(g int, log *[]opRec, r *vrand.R) {
 			})
 			os.RemoveAll(dst)
 		case g < in.Copiers+in.Writers:
-			switch x := r.Intn(12); {
+			switch x := r.Intn(10); {
 			case x < 6:
 				rc.do(g, log, "batch", func() error {
 					b := idx.NewBatch()
@@ -739,22 +763,29 @@ func (rc *runCtx) backupWorker(g int, log *[]opRec, r *vrand.R) {
 				})
 			case x < 9:
 				rc.do(g, log, "index", func() error { return idx.Index(sw.DocName(id), sw.DocFor(id, ver)) })
-			case x < 10:
-				rc.do(g, log, "delete", func() error { return idx.Delete(sw.DocName(id)) })
 			default:
-				rc.do(g, log, "forcemerge", func() error { sw.ForceMerge(idx); return nil })
+				rc.do(g, log, "delete", func() error { return idx.Delete(sw.DocName(id)) })
 			}
 			if !closed {
 				time.Sleep(time.Duration(r.Intn(in.WriterNapUS+1)) * time.Microsecond)
 			}
 		default:
-			if it%2 == 0 {
+			k := it % 4
+			if k == 3 && !in.ForceMerges {
+				k = 1
+			}
+			switch k {
+			case 0, 2:
 				rc.do(g, log, "search", func() error {
 					_, err := idx.Search(rc.request(id))
 					return err
 				})
-			} else {
+			case 1:
 				rc.do(g, log, "doccount", func() error { _, err := idx.DocCount(); return err })
+			default:
+				// a forced merge of what the writers have produced: the merged-away files are what the
+				// purger looks at next
+				rc.do(g, log, "forcemerge", func() error { sw.ForceMerge(idx); return nil })
 			}
 			if !closed {
 				time.Sleep(time.Duration(r.Intn(2000)) * time.Microsecond)
